@@ -11,7 +11,7 @@ PROP = "C06"
 NEED_JSONSCHEMA = True
 SHARDS = {"quick": 8, "thorough": 16}
 TIME_CAP = {"quick": 70, "thorough": 900}
-REQUIRED = ["conversion_graphs", "conversion_agreement_checks", "primitive_union_programs", "agree_valid", "agree_invalid", "programs", "meta_schema_checks", "per_call_schema_programs", "std_programs", "all_refs_programs", "recursive_programs", "discriminated_families", "discriminated_agree"]
+REQUIRED = ["directed_shape_programs", "conversion_graphs", "conversion_agreement_checks", "primitive_union_programs", "agree_valid", "agree_invalid", "programs", "meta_schema_checks", "per_call_schema_programs", "std_programs", "all_refs_programs", "recursive_programs", "discriminated_families", "discriminated_agree"]
 RULE = ("C01 program space + standard-library converted types (UUID, date/datetime/time, Decimal, bytes, Path, ip addresses, Pattern) x JSON data "
         "(atoms, model-valid data, boundary mutants, random deep JSON) x additional_properties x aliaser x all_refs x per-call schema=; data outside the common "
         "semantic domain are skipped and counted (integer-valued floats, duplicate items with set-typed positions, ill-formatted strings at format-only positions). "
@@ -330,6 +330,20 @@ def run(env):
         finally:
             prog.unload()
     rng = env.rng
+    for i, (label, build) in enumerate(gen_types.directed_shapes()):
+        if i % env.nshards != env.shard:
+            continue
+        prog = Program(build(gen_types.Gen(rng, max_depth=2)))
+        try:
+            prog.load()
+        except Exception:
+            env.count("program_load_failed")
+            continue
+        try:
+            check_program(env, prog, "directed:" + label, ndata=40, std=False)
+            env.count("directed_shape_programs")
+        finally:
+            prog.unload()
     n = env.n(2600, 60000)
     small = [b for _, b in gen_types.enumerate_small(depth2=False)]
     for j in range(n):
